@@ -149,6 +149,62 @@ theorem tap_dance_tick_total (w : Waiting) (acts : List Action) (t n : Nat)
     simp only [List.getElem?_eq_getElem hidx]
     exact ⟨_, rfl⟩
 
+/-! ### [t7:u16-delay] The delay handed on when a waiting state resolves (`w.delay + w.ticks`, u16) -/
+
+/-- the pinned code: `w.delay + w.ticks` with overflow checks (debug builds, `cargo test`);
+`none` = `attempt to add with overflow` in waiting_into_hold / _tap / _timeout -/
+def waitingDelayPinned (w : Waiting) : Option Nat :=
+  match w.config with
+  | .holdTap _ | .chord _ => if w.delay + w.ticks ≤ U16_MAX then some (w.delay + w.ticks) else none
+  | .tapDance .. => some 0
+
+/-- **waiting_delay_fits_u16** (full, after fix PENDING-1): whatever a waiting state holds, the
+delay it hands to `do_action` when it resolves is a u16 - the sum saturates. -/
+theorem waiting_delay_fits_u16 (w : Waiting) : waitingDelay w ≤ U16_MAX := by
+  unfold waitingDelay
+  cases w.config with
+  | holdTap c => exact Nat.min_le_right _ _
+  | chord g => exact Nat.min_le_right _ _
+  | tapDance a t n => exact Nat.zero_le _
+
+/-- **waiting_delay_repair_conservative**: wherever the pinned code did not panic, the repaired code
+hands on the same delay. -/
+theorem waiting_delay_repair_conservative (w : Waiting) (d : Nat) (h : waitingDelayPinned w = some d) :
+    waitingDelay w = d := by
+  unfold waitingDelayPinned at h
+  unfold waitingDelay
+  cases hcfg : w.config with
+  | holdTap c =>
+    simp only [hcfg] at h ⊢
+    split at h
+    · rename_i hle; injection h with h; rw [Nat.min_eq_left hle]; exact h
+    · cases h
+  | chord g =>
+    simp only [hcfg] at h ⊢
+    split at h
+    · rename_i hle; injection h with h; rw [Nat.min_eq_left hle]; exact h
+    · cases h
+  | tapDance a t n =>
+    simp only [hcfg] at h ⊢
+    injection h
+
+/-- **waiting_delay_overflow_pinned_counterexample** (pinned code): every tap-hold or chord state
+whose press waited in the queue for at least one tick (`delay = Queued.since ≥ 1`: the tick that
+dequeues a press has aged it already) and whose own counter is saturated (`tickWt` counts
+`min (ticks + 1) U16_MAX`, i.e. the key was undecided for 65535 ms) panicked when it resolved.
+Witness on the real code: `(tap-hold 0 65535 a lctl)`, `d:a t:65536`. -/
+theorem waiting_delay_overflow_pinned_counterexample (w : Waiting) (hc : ∀ a t n, w.config ≠ .tapDance a t n)
+    (hd : 1 ≤ w.delay) (ht : w.ticks = U16_MAX) : waitingDelayPinned w = none := by
+  unfold waitingDelayPinned
+  cases hcfg : w.config with
+  | holdTap c => simp only []; rw [if_neg (by omega)]
+  | chord g => simp only []; rw [if_neg (by omega)]
+  | tapDance a t n => exact absurd hcfg (hc a t n)
+
+/-- the hypotheses are met by the state of the witness one tick before the deadline -/
+example : waitingDelayPinned { (default : Waiting) with delay := 1, ticks := U16_MAX, config := .holdTap .default } = none :=
+  waiting_delay_overflow_pinned_counterexample _ (by intro a t n h; cases h) (by decide) rfl
+
 /-! ### The edge of the layer table (not reachable from the event loop) -/
 
 /-- **input_code_767_counterexample**: the layer tables have 767 columns (0‥766) but key code 767
